@@ -2504,6 +2504,7 @@ def inline_dropout_training_mode_constants_ir(graph: ir.Graph) -> None:
     changed = False
     del_not_names: Set[str] = set()
     del_not_nodes: Set[ir.Node] = set()
+    false_count = 0
 
     for idx, n in enumerate(nodes):
         if n.op_type != "Dropout":
@@ -2540,6 +2541,22 @@ def inline_dropout_training_mode_constants_ir(graph: ir.Graph) -> None:
                 nv = _read_scalar_bool_from_value_or_constant(nodes, not_in)
                 if nv is not None and bool(nv) is True:
                     rep_val = _constant_false_value()
+                    if false_count:
+                        rep_val.name = f"false_const_{false_count}"
+                    false_count += 1
+                    # Define the replacement with a Constant node so that it is
+                    # serialized (valid for top-level graphs and function bodies).
+                    graph.insert_before(
+                        producer,
+                        ir.Node(
+                            "",
+                            "Constant",
+                            inputs=[],
+                            attributes=[ir.AttrTensor("value", rep_val.const_value)],
+                            outputs=[rep_val],
+                            name=f"{rep_val.name}_node",
+                        ),
+                    )
                     ins_new = list(ins)
                     ins_new[2] = rep_val
                     old_not_out = _node_output(producer)
